@@ -633,7 +633,66 @@ def first_diff(msteps, rsteps):
     return None if len(msteps) == len(rsteps) else min(len(msteps), len(rsteps))
 
 
+def _renumber(tagged):
+    """tagged = [(event, id of the call event it belongs to | None)]: drop events whose call is gone, renumber"""
+    calls = [cid for ev, cid in tagged if ev['ev'] == 'call']
+    index = {cid: i for i, cid in enumerate(calls)}
+    out = []
+    for ev, cid in tagged:
+        if ev['ev'] in ('call', 'disable'):
+            out.append(ev)
+        elif cid in index:
+            out.append(dict(ev, g=index[cid]))
+    return out
+
+
+def shrink_case(case, sig):
+    """smallest sub-history (delta debugging on events, generator indices renumbered) on which the real code
+    still violates the property in the same way"""
+    tagged, cid = [], 0
+    for ev in case['events']:
+        if ev['ev'] == 'call':
+            tagged.append((ev, cid))
+            cid += 1
+        elif ev['ev'] == 'disable':
+            tagged.append((ev, None))
+        else:
+            tagged.append((ev, ev['g']))
+
+    def still_fails(sub):
+        evs = _renumber(sub)
+        if not evs:
+            return False
+        try:
+            viol = execute(dict(case, events=evs))[2]
+        except Exception:
+            return False
+        return any(v[0] == sig for v in viol)
+    if not still_fails(tagged):
+        return case
+    small = common.shrink_list(tagged, still_fails, max_rounds=120)
+    return dict(case, events=_renumber(small))
+
+
+_KNOWN = None
+_SHRUNK = set()
+
+
 def judge(run, case, steps, model_events, viol, stats, answer):
+    global _KNOWN
+    if _KNOWN is None:
+        _KNOWN = common.load_known_all()
+    new = [v for v in viol if not any(common.matches(f, PROP, v[0]) for f in _KNOWN)]
+    for sig, observed, evno in new:
+        key = json.dumps(sig, sort_keys=True)
+        if key in _SHRUNK or len(_SHRUNK) >= 6:
+            continue
+        _SHRUNK.add(key)
+        small = shrink_case(case, sig)
+        if small is not case:
+            sv = [v for v in execute(small)[2] if v[0] == sig]
+            if sv:
+                run.violate(sig, canonical(small), dict(sv[0][1], event=sv[0][2], shrunk_from=len(case['events'])))
     c = canonical(case)
     yielded = stats.get('generators-that-yielded', 0) > 0
     run.case(c, nontrivial=yielded)
@@ -668,7 +727,7 @@ ASSUMPTIONS = ['uuid4 context ids never repeat (model: counter)',
 
 def run(run):
     rng = run.rng
-    n = 24000 if run.thorough else 2600
+    n = 14000 if run.thorough else 2600
     run.rule = RULE
     run.assumptions += ASSUMPTIONS
     cases = [gen_case(rng, run.thorough) for _ in range(n)] + directed_cases()
